@@ -44,7 +44,10 @@ PR2 == <<GenP(<<112, 50>>, <<[t |-> "i", x |-> -7], [t |-> "r", x |-> 20], [t |-
                             [t |-> "u", x |-> 2147483647]>>),
          GdsP(3, <<97, 98>>),
          GenP(<<112, 49>>, <<[t |-> "s", x |-> <<97, 32, 98>>], [t |-> "r", x |-> 1], [t |-> "r", x |-> 24]>>)>>
-PR3 == <<GenP(<<113>>, <<>>), GenP(<<113>>, <<[t |-> "s", x |-> <<116, 101, 120, 116>>]>>)>>     \* no values; repeated name and string
+\* no values; repeated name; strings that are prefixes of later ones (the empty string first)
+PR3 == <<GenP(<<113>>, <<>>),
+         GenP(<<113>>, <<[t |-> "s", x |-> <<>>], [t |-> "s", x |-> <<116, 101>>], [t |-> "s", x |-> <<116, 101, 120, 116>>],
+                         [t |-> "s", x |-> <<116>>], [t |-> "s", x |-> <<116, 101, 120, 116>>]>>)>>
 PropsV(k) == CASE k % 4 = 0 -> PR0 [] k % 4 = 1 -> PR1 [] k % 4 = 2 -> PR2 [] OTHER -> PR3
 
 \* repetitions on whole grid units (4 quanta), so that the rounding of a sum is the sum of roundings
